@@ -141,14 +141,14 @@ func c07Build(parts []c07Part, tid [12]byte, slack int, filler func(i int) byte)
 		copy(back[off+4:], p.Value)
 		off += 4 + pad4(len(p.Value))
 	}
-	return back[:n:n+slack]
+	return back[: n : n+slack]
 }
 
 var c07Fillers = []func(i int) byte{
 	func(int) byte { return 0x00 },
 	func(int) byte { return 0xFF },
 	func(i int) byte { return byte(i & 1) }, // 00 01 repeating: looks like an address family
-	nil, // seed filler, set in Run
+	nil,                                     // seed filler, set in Run
 }
 
 var c07Slacks = []int{0, 1, 2, 3, 4, 8, 64}
@@ -231,16 +231,16 @@ func c07Reused(gi, l, class int) (key, detail string) {
 }
 
 type c07Case struct {
-	Getter  int    `json:"getter"`
-	Len     int    `json:"len"`
-	Class   int    `json:"class"`
-	Pos     int    `json:"pos"` // 0 only, 1 first, 2 middle, 3 last
-	Slack   int    `json:"slack"`
-	Filler  int    `json:"filler"`
-	Pos2    int    `json:"pos2"` // twin compared against (position, slack, filler)
-	Slack2  int    `json:"slack2"`
-	Filler2 int    `json:"filler2"`
-	Seed    int64  `json:"seed"`
+	Getter  int   `json:"getter"`
+	Len     int   `json:"len"`
+	Class   int   `json:"class"`
+	Pos     int   `json:"pos"` // 0 only, 1 first, 2 middle, 3 last
+	Slack   int   `json:"slack"`
+	Filler  int   `json:"filler"`
+	Pos2    int   `json:"pos2"` // twin compared against (position, slack, filler)
+	Slack2  int   `json:"slack2"`
+	Filler2 int   `json:"filler2"`
+	Seed    int64 `json:"seed"`
 }
 
 var c07TID = [12]byte{0x5a, 0x01, 0xfe, 0x33, 0x80, 0x7f, 0x11, 0x22, 0xc3, 0xd4, 0xe5, 0xf6}
